@@ -274,7 +274,11 @@ func runC12(seed int64, tier string, sc *Script) map[string]any {
 		if stale {
 			os.MkdirAll(wd2, 0o755)
 			os.WriteFile(filepath.Join(wd2, "one.bin"), append(append([]byte{}, single...), []byte("-STALE-TAIL-OF-AN-OLDER-VERSION")...), 0o644)
-			os.WriteFile(filepath.Join(wd2, "dup1"), append(append([]byte{}, dup...), []byte("-STALE")...), 0o644)
+			if !forceCAS {
+				// (with ForceCAS only one of the two duplicate names is materialised, so a stale
+				// file under the other name would legitimately stay)
+				os.WriteFile(filepath.Join(wd2, "dup1"), append(append([]byte{}, dup...), []byte("-STALE")...), 0o644)
+			}
 			sc.Count("destination:stale-files")
 		}
 		fs2, err := file.New(wd2)
